@@ -921,7 +921,17 @@ func (r *run) Do(op string) string {
 
 const radSecret = "s3cret"
 
+// radClient: a response the client discards makes it wait for its timeout, so the timeout is short; an "err" is
+// confirmed once with a timeout ten times as long, so that a stall of the machine is not mistaken for a discarded response.
 func radClient(acct, raw bool, code byte, body []byte) string {
+	out := radClientT(acct, raw, code, body, 60*time.Millisecond)
+	if out == "err" {
+		out = radClientT(acct, raw, code, body, 600*time.Millisecond)
+	}
+	return out
+}
+
+func radClientT(acct, raw bool, code byte, body []byte, timeout time.Duration) string {
 	// the accounting port is the authentication port + 1
 	var auth, ac *net.UDPConn
 	for try := 0; try < 50 && ac == nil; try++ {
@@ -976,7 +986,7 @@ func radClient(acct, raw bool, code byte, body []byte) string {
 	go serve(ac)
 	cl, err := radius.NewClient(radius.ClientConfig{
 		Servers: []radius.ServerConfig{{Host: "127.0.0.1", Port: auth.LocalAddr().(*net.UDPAddr).Port, Secret: radSecret}},
-		NASID:   "bng-verif", Timeout: 60 * time.Millisecond, Retries: 1}, nop)
+		NASID:   "bng-verif", Timeout: timeout, Retries: 1}, nop)
 	if err != nil {
 		return "harness-err " + err.Error()
 	}
